@@ -105,7 +105,17 @@ func worker(prop, scID, out string) {
 	if v := os.Getenv("VERIF_E1_BUDGET_S"); v != "" {
 		fmt.Sscanf(v, "%f", &budgetS)
 	}
+	cfg.NoCost = map[string]bool{}
+	for _, a := range plan.NoCostActions {
+		cfg.NoCost[a] = true
+	}
 	cfg.Deadline = t0.Add(time.Duration(budgetS * float64(time.Second)))
+	// one complete default-schedule continuation per deviation point before the breadth-first exploration of the
+	// continuations (safety plans with user deviations; at most a third of the time budget)
+	if plan.FreeQueues && plan.MaxUser > 0 && !live {
+		cfg.DefaultContinuations = true
+		cfg.ContinuationBudget = time.Duration(budgetS * float64(time.Second) / 3)
+	}
 	// memory budget per worker (the scenarios of one check run in parallel): stop with exhaustive:false rather than
 	// exhaust the machine
 	cfg.MemLimitMB = 3500
